@@ -322,6 +322,9 @@ def units_for(prop, tier):
         us.append({"runner": "opacity", "prop": prop, "id": f"opacity-conditions/{prop}"})
     if "guard" in fams:
         us.append({"runner": "guard", "prop": prop, "id": f"guard-conditions/{prop}"})
+    if prop in ("C05", "C08"):
+        # the indexed forms that are compositions (map_indexed, skip_while_indexed, starmap_indexed, pluck_attr) and the stage that attaches the index
+        us.append({"runner": "indexed", "prop": prop, "id": "reactivex/operators::indexed-forms"})
     if "srcwire" in fams:
         us.append({"runner": "srcwire", "prop": prop, "id": "reactivex/observable/repeat.py::repeat_value_"})
     if "catchsched" in fams:
